@@ -22,6 +22,16 @@ Streams:
            different tolerances (small / medium / large, assignment permuted), and judged by key.
   B-boundary  every class variant with each tolerance exactly 0 in turn (int and float), one tolerance 1e9, and the
            limits mpc_lim = 0, xi_max = 1, mpd_lim = 0.
+  steps    stream A calls gen.SC_apply with step 1 (about half), 2, 3, 4, 5 or 7: ordmin / ordmax are ORDERS, column c stands for
+           order c*step; the model executes the loop itself (M_sc_step.sc_apply_step).  With ordmin a multiple of step the NumPy
+           text judges too (order c*step in [ordmin, ordmax]); with ordmin off the grid (outside the property, 15 % of the
+           step > 1 cases) only the model judges.
+  glue     every class run goes through a recording wrapper of gen.SC_apply: the six arguments the class passes are compared
+           with the model's glue (M_sc_step.class_args of the run parameters, sc read by key in the key order given), the call
+           must happen exactly once, and gen.SC_apply re-applied to the RETURNED tables with those arguments must reproduce
+           result.Lab.  B-step: SSI classes with step = ordmax (the only step > 1 for which SSI_poles builds a table).
+  purity   an earlier input of stream A is called again after other calls, and the first SSI / pLSCF configuration of stream B is
+           run again at the end of the stream: the same tables and tolerances must give the same labels whatever ran before.
 Oracle: the property text written in NumPy floats (independent of the model), run on every input of every stream.
 """
 import glob
@@ -34,7 +44,7 @@ import numpy as np
 
 from common import VERIF, clist, jsonable, qq
 
-HEADER = "From PyOMA.Model Require Import M_sc.\nOpen Scope Q_scope."
+HEADER = "From PyOMA.Model Require Import M_sc M_sc_step.\nOpen Scope Q_scope."
 REL = 1e-9  # decisions closer than this (relative) to a tolerance are not judged
 
 # ---------------------------------------------------------------------------------------------------------------
@@ -92,10 +102,24 @@ def finite_tables(*arrs):
     return all(not np.isinf(np.asarray(a, dtype=complex)).any() for a in arrs)
 
 
+def visited_columns(ordmin, ordmax, step, upto):
+    """Columns o < upto in which a requested order oo = ordmin + j*step <= ordmax is looked up (o = oo // step); written from
+    C10_sc_step_spec: ordmin <= o*step + ordmin mod step <= ordmax."""
+    return [o for o in range(upto) if ordmin <= o * step + ordmin % step <= ordmax]
+
+
+def parse_glue(a):
+    """'start stop step n/d n/d n/d' -> dict of the SC_apply arguments the model's glue builds (ordmax argument = stop - 1)."""
+    if a.startswith("KeyError"):
+        return a
+    t = a.split(" ")
+    return dict(ordmin=int(t[0]), ordmax=int(t[1]) - 1, step=int(t[2]), err_fn=Fraction(t[3]), err_xi=Fraction(t[4]), err_phi=Fraction(t[5]))
+
+
 def parse_model(s):
     """'rows of 0/1|rows of TFne' -> (labels or 'IndexError', verdict rows)."""
     a, b = s.split("|")
-    lab = a if a == "IndexError" else [r for r in a.split(";")]
+    lab = a if (a in ("IndexError", "ValueError") or a.startswith("KeyError")) else [r for r in a.split(";")]
     return lab, b.split(";")
 
 
@@ -421,8 +445,9 @@ def tables_from_json(c):
     return Fn, Xi, Phi
 
 
-def judge(ctx, site, Lab, model, Fn, Xi, Phi, in_range, tols, case, dyadic):
-    """Lab: implementation labels (array) ; model: parsed model output.  Returns number of judged cells."""
+def judge(ctx, site, Lab, model, Fn, Xi, Phi, in_range, tols, case, dyadic, text=True):
+    """Lab: implementation labels (array) ; model: parsed model output.  Returns number of judged cells.
+    text=False: the input is outside the domain of the property text (ordmin off the order grid of a step > 1); the model alone judges."""
     efn, exi, ephi = tols
     mlab, mver = model
     R, C = Fn.shape
@@ -435,11 +460,15 @@ def judge(ctx, site, Lab, model, Fn, Xi, Phi, in_range, tols, case, dyadic):
         return 0
     # ---- property text
     exp, why = text_labels(Fn, Xi, Phi, in_range, efn, exi, ephi)
+    if not text:
+        exp = np.full((R, C), -3)
     judged = 0
     bad_text = None
     for o in range(C):
         for i in range(R):
             e = exp[i, o]
+            if e == -3:
+                continue
             if e < 0:
                 ctx.hist("text-not-judged", why[(i, o)])
                 continue
@@ -538,10 +567,11 @@ def present_tables(Fn, Xi, Phi, forms):
     return a0, a1, a2, narrow
 
 
-def call_sc(gen, Fn, Xi, Phi, c0, c1, tols, forms=None):
+def call_sc(gen, Fn, Xi, Phi, c0, c1, tols, forms=None, step=1):
+    """gen.SC_apply(Fn, Xi, Phi, ordmin=c0, ordmax=c1, step, *tols)"""
     ints, floats = (forms or {}).get("ints", "int"), (forms or {}).get("floats", "float")
     try:
-        return np.asarray(gen.SC_apply(Fn, Xi, Phi, as_int(c0, ints), as_int(c1, ints), as_int(1, ints), *[as_float(t, floats) for t in tols])), None
+        return np.asarray(gen.SC_apply(Fn, Xi, Phi, as_int(c0, ints), as_int(c1, ints), as_int(step, ints), *[as_float(t, floats) for t in tols])), None
     except Exception as e:  # noqa: BLE001
         return None, type(e).__name__
 
@@ -703,13 +733,25 @@ def pick_sc(rng, is_p):
 
 
 LAST_RUN = {"untouched": True}
+CLS_NUMBER = {"SSIdat": 0, "SSIcov": 1, "SSIdat_MS": 2, "SSIcov_MS": 3, "pLSCF": 4, "pLSCF_MS": 5}  # M_sc_step.cls_of_nat
 
 
 def run_class(kind, data, fs, params, readonly=False, dtype=float):
     """kind in SSIcov SSIdat pLSCF SSIcov_MS SSIdat_MS pLSCF_MS ; returns result object.  The record(s) are handed over as fresh
     arrays of the given storage type, read-only when asked; afterwards they must still hold the same values."""
     from pyoma2 import algorithms as A
+    from pyoma2.functions import gen
     from pyoma2.setup import MultiSetup_PreGER, SingleSetup
+
+    original = gen.SC_apply
+    calls = []
+
+    def recording_sc_apply(Fn, Xi, Phi, ordmin, ordmax, step, err_fn, err_xi, err_phi):
+        # positional or keyword: what is recorded is the VALUE of each parameter of the call
+        calls.append(dict(ordmin=ordmin, ordmax=ordmax, step=step, err_fn=err_fn, err_xi=err_xi, err_phi=err_phi))
+        return original(Fn, Xi, Phi, ordmin, ordmax, step, err_fn, err_xi, err_phi)
+
+    LAST_RUN["sc_calls"] = calls
 
     def present(d):
         a = np.array(d, dtype=dtype)
@@ -719,18 +761,22 @@ def run_class(kind, data, fs, params, readonly=False, dtype=float):
 
     cls = getattr(A, kind)
     alg = cls(name="a", **params)
-    if kind.endswith("_MS"):
-        given = [present(d) for d in data["datasets"]]
-        before = [g.copy() for g in given]
-        ms = MultiSetup_PreGER(fs=fs, ref_ind=data["ref_ind"], datasets=given)
-        ms.add_algorithms(alg)
-        ms.run_by_name("a")
-    else:
-        given = [present(data)]
-        before = [given[0].copy()]
-        ss = SingleSetup(given[0], fs=fs)
-        ss.add_algorithms(alg)
-        ss.run_by_name("a")
+    gen.SC_apply = recording_sc_apply
+    try:
+        if kind.endswith("_MS"):
+            given = [present(d) for d in data["datasets"]]
+            before = [g.copy() for g in given]
+            ms = MultiSetup_PreGER(fs=fs, ref_ind=data["ref_ind"], datasets=given)
+            ms.add_algorithms(alg)
+            ms.run_by_name("a")
+        else:
+            given = [present(data)]
+            before = [given[0].copy()]
+            ss = SingleSetup(given[0], fs=fs)
+            ss.add_algorithms(alg)
+            ss.run_by_name("a")
+    finally:
+        gen.SC_apply = original
     LAST_RUN["untouched"] = all(np.array_equal(g, b) for g, b in zip(given, before))
     return alg.result
 
@@ -739,7 +785,7 @@ def apply_forms(kind, fs, params, forms):
     """params / fs with every option value in the form the descriptor asks for (the judge keeps the plain values, by key)."""
     ints, floats, bools = forms.get("ints", "int"), forms.get("floats", "float"), forms.get("bools", "bool")
     out = dict(params)
-    for k in ("ordmin", "ordmax", "br", "nxseg", "nb"):
+    for k in ("ordmin", "ordmax", "step", "br", "nxseg", "nb"):
         if k in out:
             out[k] = as_int(out[k], ints)
     if "calc_unc" in out:
@@ -768,6 +814,7 @@ def class_case(ctx, kind, data, fs, params, exprs, meta, label, store_data=False
         ctx.hist("class-form-" + k, v)
     is_p = kind.startswith("pLSCF")
     ordmin, ordmax = int(params.get("ordmin", 0)), int(params["ordmax"])
+    step = 1 if is_p else int(params.get("step", 1))
     sc = params["sc"]
     tols = (float(sc["err_fn"]), float(sc["err_xi"]), float(sc["err_phi"]))
     site = "%s.run" % kind
@@ -786,6 +833,7 @@ def class_case(ctx, kind, data, fs, params, exprs, meta, label, store_data=False
         return
     if not LAST_RUN["untouched"]:
         ctx.fail("oracle", "%s modified the record it was given" % site, dict(case, data=data), key="C10:%s:mutates-input" % site)
+    captured = list(LAST_RUN.get("sc_calls") or [])
     if forms["dtype"] in ("int64", "int32"):
         # the float64 image of the same integer-valued record must give the same tables and labels
         try:
@@ -802,11 +850,33 @@ def class_case(ctx, kind, data, fs, params, exprs, meta, label, store_data=False
     ctx.count(dict(case, fn=Fn.tolist()), nontrivial=bool(Lab.sum() > 0 and (Lab == 0).any()))
     ctx.hist("class", kind)
     ctx.hist("class-ordmin", "%s ordmin=%d" % ("pLSCF" if is_p else "SSI", min(ordmin, 3)))
-    want_cols = ordmax if is_p else ordmax + 1
+    ctx.hist("class-step", "pLSCF (no step)" if is_p else ("step=1" if step == 1 else "step=ordmax"))
+    want_cols = ordmax if is_p else ordmax // step + 1
     if Fn.shape[1] != want_cols or Xi.shape != Fn.shape or Phi.shape[:2] != Fn.shape:
-        ctx.fail("oracle", "%s: pole tables have %d columns, expected orders %s" % (site, Fn.shape[1], "1..ordmax" if is_p else "0..ordmax"), case,
+        ctx.fail("oracle", "%s: pole tables have %d columns, expected orders %s" % (site, Fn.shape[1], "1..ordmax" if is_p else "0..ordmax by step"), case,
                  key="C10:%s:layout" % site)
         return
+    # ---- the glue: the class must consult gen.SC_apply exactly once, and the labels it stores must be what gen.SC_apply gives
+    # for the tables it stores with the arguments it passed (the labels are a function of the FILTERED tables and the tolerances)
+    if len(captured) != 1:
+        ctx.fail("correspondence", "%s called gen.SC_apply %d times (the model: once)" % (site, len(captured)), case, key="C10:%s:glue-calls" % site)
+    else:
+        cap = captured[0]
+        try:
+            cap_plain = dict(ordmin=int(cap["ordmin"]), ordmax=int(cap["ordmax"]), step=int(cap["step"]),
+                             err_fn=float(cap["err_fn"]), err_xi=float(cap["err_xi"]), err_phi=float(cap["err_phi"]))
+        except Exception:  # noqa: BLE001
+            cap_plain = None
+        case["sc_apply_arguments"] = cap_plain
+        if cap_plain is not None and finite_tables(Fn, Xi, Phi):
+            from pyoma2.functions import gen as _gen
+
+            again, err = call_sc(_gen, Fn.copy(), Xi.copy(), np.array(Phi), cap_plain["ordmin"], cap_plain["ordmax"],
+                                 (cap_plain["err_fn"], cap_plain["err_xi"], cap_plain["err_phi"]), step=cap_plain["step"])
+            if again is None or again.shape != Lab.shape or not np.array_equal(again, Lab):
+                ctx.fail("correspondence", "%s: result.Lab is not gen.SC_apply of the returned tables with the arguments the class passed (%s)"
+                         % (site, "raised " + str(err) if again is None else "%d cells differ" % int((again != Lab).sum()) if again.shape == Lab.shape else "shape"),
+                         dict(case, **case_json(Fn, Xi, Phi), Lab=Lab.tolist(), data=data), key="C10:%s:glue-replay" % site)
     if not finite_tables(Fn, Xi, Phi):
         ctx.note("%s produced an infinite table entry; case skipped" % site)
         return
@@ -829,12 +899,13 @@ def class_case(ctx, kind, data, fs, params, exprs, meta, label, store_data=False
                  key="C10:%s:spurious-criteria" % site)
     if not evaluate:
         return Lab
-    order = (lambda o: o + 1) if is_p else (lambda o: o)
+    order = (lambda o: o + 1) if is_p else (lambda o: o * step)
     in_range = lambda o: ordmin <= order(o) <= ordmax  # noqa: E731
-    fun = "run_plscf" if is_p else "run_ssi"
-    exprs.append("%s %s %s %s %d%%nat %d%%nat %s %s %s" % (fun, tab_q(Fn), tab_q(Xi), tab_phi(Phi), ordmin, ordmax, qq(tols[0]), qq(tols[1]), qq(tols[2])))
+    # the model: class number, run parameters, sc as the item list in the key order the class was given, then the returned tables
+    sc_items = clist(['("%s", %s)' % (k, qq(float(v))) for k, v in sc.items()])
+    exprs.append("run_cls %d%%nat %d%%nat %d%%nat %d%%nat %s %s %s %s" % (CLS_NUMBER[kind], ordmin, ordmax, step, sc_items, tab_q(Fn), tab_q(Xi), tab_phi(Phi)))
     full = dict(case, **case_json(Fn, Xi, Phi), Lab=Lab.tolist(), data=data)  # data: the record(s) the class was run on (replay)
-    meta.append(("class", site, Lab, Fn, Xi, Phi, in_range, tols, full, False))
+    meta.append(("class", site, Lab, Fn, Xi, Phi, in_range, tols, full, False, dict(captured=captured, text=True)))
     return Lab
 
 
@@ -1091,13 +1162,14 @@ def run(ctx):
         elif c["kind"] == "sc_apply":
             Fn, Xi, Phi = tables_from_json(c)
             tols = (float(c["efn"]), float(c["exi"]), float(c["ephi"]))
-            c0, c1 = int(c["c0"]), int(c["c1"])
+            c0, c1 = int(c["c0"]), int(c["c1"])  # the ordmin / ordmax arguments (orders; = columns when step is 1)
+            cstep = int(c.get("step", 1))
             forms = dict(pick_forms(None, plain=True), **(c.get("forms") or {}))
             a0, a1, a2, narrow = present_tables(Fn, Xi, Phi, forms)
             if forms["dtype"] == "float32" and not narrow:
                 ctx.note("corpus table %s is no longer exactly representable in float32" % name)
-            Lab, err = call_sc(gen, a0, a1, a2, c0, c1, tols, forms)
-            case = case_json(Fn, Xi, Phi, c0=c0, c1=c1, efn=tols[0], exi=tols[1], ephi=tols[2], corpus=name, forms=forms)
+            Lab, err = call_sc(gen, a0, a1, a2, c0, c1, tols, forms, step=cstep)
+            case = case_json(Fn, Xi, Phi, c0=c0, c1=c1, step=cstep, efn=tols[0], exi=tols[1], ephi=tols[2], corpus=name, forms=forms)
             ctx.count(case)
             if Lab is None:
                 ctx.fail("oracle", "gen.SC_apply raised %s on corpus table %s (input forms: %s)" % (err, name, forms), case, key="C10:SC_apply:raised-%s" % err)
@@ -1105,11 +1177,15 @@ def run(ctx):
             if c.get("expected") is not None and not np.array_equal(Lab, np.array(c["expected"])):
                 ctx.fail("oracle", "gen.SC_apply on corpus table %s: labels %s, expected %s" % (name, Lab.tolist(), c["expected"]), case,
                          key="C10:SC_apply:corpus-%s" % name)
-            exprs.append("run_sc %s %s %s %d%%nat %d%%nat %s %s %s" % (tab_q(Fn), tab_q(Xi), tab_phi(Phi), c0, c1, qq(tols[0]), qq(tols[1]), qq(tols[2])))
-            meta.append(("sc", "SC_apply", Lab, Fn, Xi, Phi, (lambda o, c0=c0, c1=c1: c0 <= o <= c1), tols, case, True))
+            exprs.append("run_sc_step %s %s %s %d%%nat %d%%nat %d%%nat %s %s %s"
+                         % (tab_q(Fn), tab_q(Xi), tab_phi(Phi), c0, c1, cstep, qq(tols[0]), qq(tols[1]), qq(tols[2])))
+            vis = set(visited_columns(c0, c1, cstep, Fn.shape[1]))
+            case["shrink_columns"] = [min(vis), max(vis)] if vis else [1, 0]
+            meta.append(("sc", "SC_apply", Lab, Fn, Xi, Phi, (lambda o, vis=vis: o in vis), tols, case, True, dict(text=(c0 % cstep == 0))))
 
     # ---------------- stream A
     nA = ctx.n(600, 4000)
+    pool = []
     for _ in range(nA):
         Fn, Xi, Phi, feats = gen_tables(rng, quick)
         R, C = Fn.shape
@@ -1119,15 +1195,27 @@ def run(ctx):
         c1 = C - 1 if r < 0.7 else (rng.randint(0, C - 1) if r < 0.95 else C + rng.randint(0, 2))
         r = rng.random()
         c0 = 0 if r < 0.2 else (rng.randint(0, min(c1, C - 1)) if r < 0.93 else rng.randint(0, C))  # mostly ordmin <= ordmax
-        case = case_json(Fn, Xi, Phi, c0=c0, c1=c1, efn=efn, exi=exi, ephi=ephi)
+        # c0, c1 are COLUMNS; the call is made in ORDERS with a step: column c stands for order c*step
+        step = 1 if rng.random() < 0.5 else rng.choice([2, 2, 3, 3, 4, 5, 7])
+        offgrid = step > 1 and rng.random() < 0.15
+        ordmin = c0 * step + (rng.randint(1, step - 1) if offgrid else 0)
+        ordmax = c1 * step + (rng.randint(0, step - 1) if step > 1 else 0)
+        vis = set(visited_columns(ordmin, ordmax, step, C + 4))
+        if not offgrid and vis != set(range(c0, c1 + 1)) & set(range(C + 4)):
+            ctx.note("generator: on-grid orders do not give the intended columns")
+        case = case_json(Fn, Xi, Phi, c0=ordmin, c1=ordmax, step=step, efn=efn, exi=exi, ephi=ephi,
+                         shrink_columns=[min(vis), max(vis)] if vis else [1, 0])
+        ctx.hist("step", step)
+        ctx.hist("order-grid", "step 1" if step == 1 else ("ordmin off the grid (model only)" if offgrid else "ordmin on the grid"))
         ctx.hist("stream", "A")
         ctx.hist("rows", R)
         ctx.hist("columns", C if C <= 12 else "13-40")
         ctx.hist("tolerances", how)
-        ctx.hist("range", "empty" if c0 > c1 else ("beyond-table" if c1 >= C else ("all" if (c0 <= 1 and c1 == C - 1) else "partial")))
+        ctx.hist("range", "empty" if not vis else ("beyond-table" if max(vis) >= C else ("all" if (min(vis) <= 1 and max(vis) == C - 1) else "partial")))
         for ft in sorted(feats):
             ctx.hist("feature", ft)
-        ctx.sample(dict(shape=[R, C, Phi.shape[2]], c0=c0, c1=c1, efn=efn, exi=exi, ephi=ephi, features=sorted(feats), Fn_first_rows=Fn[:2].tolist()))
+        ctx.sample(dict(shape=[R, C, Phi.shape[2]], ordmin=ordmin, ordmax=ordmax, step=step, efn=efn, exi=exi, ephi=ephi, features=sorted(feats),
+                        Fn_first_rows=Fn[:2].tolist()))
         forms = pick_forms(rng)
         a0, a1, a2, narrow = present_tables(Fn, Xi, Phi, forms)
         forms["dtype"] = "float32" if narrow else "float64"
@@ -1135,10 +1223,10 @@ def run(ctx):
         for k_, v_ in forms.items():
             ctx.hist("A-form-" + k_, v_)
         b0, b1, b2 = a0.copy(), a1.copy(), a2.copy()
-        Lab, err = call_sc(gen, a0, a1, a2, c0, c1, tols, forms)
+        Lab, err = call_sc(gen, a0, a1, a2, ordmin, ordmax, tols, forms, step=step)
         if not (nan_equal(a0, b0) and nan_equal(a1, b1) and nan_equal(a2, b2)):
             ctx.fail("oracle", "gen.SC_apply modified its input tables", case, key="C10:SC_apply:mutates-input")
-        beyond = c0 <= c1 and c1 >= C
+        beyond = bool(vis) and max(vis) >= C
         if beyond:
             # ordmax beyond the table is outside the property; the model says IndexError, the kind is not compared
             ctx.count(case, nontrivial=False)
@@ -1151,12 +1239,24 @@ def run(ctx):
                      key="C10:SC_apply:raised-%s" % err)
             continue
         # the same call with writable float64 tables and plain Python int / float options
-        Lab2, _ = call_sc(gen, Fn.copy(), Xi.copy(), Phi.copy(), c0, c1, tols)
-        inr = (lambda o, c0=c0, c1=c1: c0 <= o <= c1)
+        Lab2, _ = call_sc(gen, Fn.copy(), Xi.copy(), Phi.copy(), ordmin, ordmax, tols, step=step)
+        inr = (lambda o, vis=vis: o in vis)  # on the grid this is the text's "order o*step lies in [ordmin, ordmax]"
+        # purity: now and then an EARLIER input is called again, after all the calls made since; same inputs, same labels
+        if len(pool) < 8 and rng.random() < 0.1:
+            pool.append((Fn.copy(), Xi.copy(), Phi.copy(), ordmin, ordmax, step, tols, Lab2.copy() if Lab2 is not None else None, case))
+        elif pool and rng.random() < 0.08:
+            pF, pX, pP, pmin, pmax, pstep, ptols, plab, pcase = pool[rng.randrange(len(pool))]
+            again, _ = call_sc(gen, pF.copy(), pX.copy(), pP.copy(), pmin, pmax, ptols, step=pstep)
+            ctx.hist("purity", "function-level re-call")
+            if (again is None) != (plab is None) or (again is not None and not np.array_equal(again, plab)):
+                ctx.fail("oracle", "gen.SC_apply gives other labels for the same tables, range and tolerances after other calls were made in between",
+                         pcase, key="C10:SC_apply:history-dependent")
         if narrow:
             # float32 / complex64 storage computes in single precision: judged by the text on the float64 image with the margin
             # of the narrower type; the model judges the float64 call below
             expn, whyn = text_labels(Fn, Xi, Phi, inr, *tols, rel=REL_NARROW)
+            if offgrid:
+                expn = np.full(Fn.shape, -3)
             badn = np.argwhere((expn >= 0) & (Lab != expn)) if Lab.shape == expn.shape else np.zeros((1, 2), int)
             if len(badn):
                 i_, o_ = [int(v) for v in badn[0]]
@@ -1171,9 +1271,10 @@ def run(ctx):
             ctx.fail("oracle", "gen.SC_apply gives other labels for the same inputs handed over as %s than as writable arrays with Python int/float options"
                      % forms, case, key="C10:SC_apply:input-form")
         exp, _ = text_labels(Fn, Xi, Phi, inr, *tols)
-        ctx.count(case, nontrivial=bool((exp == 1).any() and (exp[:, max(c0, 1):c1 + 1] == 0).any()))
-        exprs.append("run_sc %s %s %s %d%%nat %d%%nat %s %s %s" % (tab_q(Fn), tab_q(Xi), tab_phi(Phi), c0, c1, qq(efn), qq(exi), qq(ephi)))
-        meta.append(("sc", "SC_apply", Lab, Fn, Xi, Phi, inr, tols, case, True))
+        seen = [o for o in sorted(vis) if 1 <= o < C]
+        ctx.count(case, nontrivial=bool((exp == 1).any() and seen and (exp[:, seen] == 0).any()))
+        exprs.append("run_sc_step %s %s %s %d%%nat %d%%nat %d%%nat %s %s %s" % (tab_q(Fn), tab_q(Xi), tab_phi(Phi), ordmin, ordmax, step, qq(efn), qq(exi), qq(ephi)))
+        meta.append(("sc", "SC_apply", Lab, Fn, Xi, Phi, inr, tols, case, True, dict(text=not offgrid)))
 
     # ---------------- stream A-int: NaN-free integer-valued frequency / shape tables stored as int32 / int64 (signed: the
     # pristine subtraction wraps around for unsigned storage) against their float64 image; NumPy text only
@@ -1217,8 +1318,16 @@ def run(ctx):
         tall_case(ctx, gen, dict(seed=rng.randrange(1 << 30), R=R, C=rng.randint(3, 6), L=1 if (k + rng.randrange(2)) % 2 else 2), "generated")
 
     # ---------------- stream B
-    for (kind, data, fs, params, rep) in class_configs(ctx):
+    class_configs_list = class_configs(ctx)
+    first_result = {}
+    for (kind, data, fs, params, rep) in class_configs_list:
         ctx.hist("stream", "B")
+        if not any(k.startswith("pLSCF") == kind.startswith("pLSCF") for k in first_result):
+            try:  # reference run of the first configuration of each family (plain forms), repeated after the whole stream
+                r1 = run_class(kind, data, fs, params)
+                first_result[kind] = (np.asarray(r1.Fn_poles, dtype=float), np.asarray(r1.Lab))
+            except Exception:  # noqa: BLE001  (class_case below reports it)
+                pass
         # first pass with ordmin = 0 (every column requested); judged against the model for the first repetition of each class
         Lab0 = class_case(ctx, kind, data, fs, params, exprs, meta, "rep%d ordmin=0" % rep, evaluate=(rep == 0))
         if Lab0 is None:
@@ -1240,6 +1349,45 @@ def run(ctx):
         ctx.hist("stream", "B")
         class_case(ctx, kind, data, fs, p2, exprs, meta, "rep%d ordmin=%d" % (rep, ordmin))
 
+    # ---------------- purity at class level: the first SSI and the first pLSCF configuration once more, after everything above
+    seen_family = set()
+    for (kind, data, fs, params, rep) in class_configs_list:
+        fam = kind.startswith("pLSCF")
+        if fam in seen_family or kind not in first_result:
+            continue
+        seen_family.add(fam)
+        try:
+            r2 = run_class(kind, data, fs, params)
+        except Exception as e:  # noqa: BLE001
+            ctx.fail("oracle", "%s.run raised %s when the same configuration was run a second time" % (kind, type(e).__name__),
+                     dict(kind="class", cls=kind, fs=fs, params=params, data=data), key="C10:%s.run:history-dependent" % kind)
+            continue
+        ctx.hist("purity", "class-level re-run")
+        F1, L1 = first_result[kind]
+        if not (nan_equal(np.asarray(r2.Fn_poles, dtype=float), F1) and np.array_equal(np.asarray(r2.Lab), L1)):
+            ctx.fail("oracle", "%s.run: the same record and parameters give other pole tables / labels when run again after other runs" % kind,
+                     dict(kind="class", cls=kind, fs=fs, params=params, data=data), key="C10:%s.run:history-dependent" % kind)
+
+    # ---------------- stream B-step: SSI classes with a step > 1.  SSI_poles builds a table only for step = ordmax (two columns:
+    # order 0 and one more); what is judged is the glue - ordmin, ordmax, STEP reach gen.SC_apply unchanged - and the labels
+    for rnd in range(ctx.n(1, 3)):
+        for kind in ("SSIcov", "SSIdat", "SSIcov_MS", "SSIdat_MS"):
+            ordmax = rng.randint(3, 6)
+            ordmin = rng.choice([0, ordmax, rng.randint(1, ordmax - 1)])
+            fs = rng.choice([20.0, 32.0])
+            N = 1200
+            hc = dict(conj=True, xi_max=0.3, mpc_lim=0.3, mpd_lim=0.8, cov_max=0.2)
+            params = dict(br=ordmax + 2, ordmax=ordmax, ordmin=ordmin, step=ordmax, sc=pick_sc(rng, False), hc=hc)
+            if kind.startswith("SSIcov"):
+                params["method"] = rng.choice(["cov_mm", "cov_R"])
+            if kind.endswith("_MS"):
+                big = synth(np.random.default_rng(int(ctx.np_rng.integers(1 << 30))), N, 4, fs, 2)
+                data = dict(ref_ind=[[0, 1]] * 2, datasets=[big[:, [0, 1, 2 + k]] + 0.02 * ctx.np_rng.standard_normal((N, 3)) for k in range(2)])
+            else:
+                data = synth(ctx.np_rng, N, 3, fs, 2)
+            ctx.hist("stream", "B-step")
+            class_case(ctx, kind, data, fs, params, exprs, meta, "step=ordmax=%d ordmin=%d round %d" % (ordmax, ordmin, rnd))
+
     # ---------------- stream B-hc: every hard criterion biting, one at a time, for every class variant
     bite_stream(ctx, exprs, meta)
 
@@ -1249,18 +1397,34 @@ def run(ctx):
     # ---------------- model evaluation and comparison
     res = balanced_eval(ctx, exprs, ctx.n(24, 16))
     judged = 0
-    for (typ, site, Lab, Fn, Xi, Phi, in_range, tols, case, dyadic), s in zip(meta, res):
+    for (typ, site, Lab, Fn, Xi, Phi, in_range, tols, case, dyadic, extra), s in zip(meta, res):
+        if typ == "class":
+            # "arguments|labels|verdicts": first the glue (what the class hands to gen.SC_apply), then the labels as before
+            glue, s = s.split("|", 1)
+            want = parse_glue(glue)
+            ctx.hist("glue", "arguments compared")
+            for cap in extra["captured"][:1]:
+                try:
+                    got = dict(ordmin=int(cap["ordmin"]), ordmax=int(cap["ordmax"]), step=int(cap["step"]),
+                               err_fn=Fraction(float(cap["err_fn"])), err_xi=Fraction(float(cap["err_xi"])), err_phi=Fraction(float(cap["err_phi"])))
+                except Exception:  # noqa: BLE001
+                    got = None
+                if got != want:
+                    show = lambda d: {k: (float(v) if isinstance(v, Fraction) else v) for k, v in d.items()} if isinstance(d, dict) else d  # noqa: E731
+                    ctx.fail("correspondence", "%s passes %s to gen.SC_apply, the model's glue %s" % (site, show(got), show(want)), case,
+                             key="C10:%s:glue-args" % site)
         model = parse_model(s)
-        if model[0] == "IndexError":
-            ctx.fail("correspondence", "%s returned labels where the model raises IndexError" % site, case, key="C10:%s:corr-indexerror" % site)
+        if model[0] in ("IndexError", "ValueError") or str(model[0]).startswith("KeyError"):
+            ctx.fail("correspondence", "%s returned labels where the model raises %s" % (site, model[0]), case, key="C10:%s:corr-indexerror" % site)
             continue
         before = len(ctx.failures)
-        judged += judge(ctx, site, Lab, model, Fn, Xi, Phi, in_range, tols, case, dyadic)
+        judged += judge(ctx, site, Lab, model, Fn, Xi, Phi, in_range, tols, case, dyadic, text=extra.get("text", True))
         if typ == "sc" and len(ctx.failures) > before:
             f = next((f for f in ctx.failures[before:] if f["kind"] == "oracle" and "cell" in (f["case"] or {})), None)
             if f is not None:
                 i, o = f["case"]["cell"]
-                small = shrink_two_columns(gen, Fn, Xi, np.asarray(Phi), case["c0"], case["c1"], tols, i, o)
+                sc0, sc1 = case.get("shrink_columns", [case["c0"], case["c1"]])
+                small = shrink_two_columns(gen, Fn, Xi, np.asarray(Phi), sc0, sc1, tols, i, o)
                 if small is not None:
                     f["case"] = jsonable(small)
     ctx.extra["judged_cells"] = judged
